@@ -1,11 +1,13 @@
 """Per-property configuration of the driver: harness, budgets, non-triviality rule."""
 
 GEN_TA = ("rapidcheck generates a list of 8-integer records; a pure decoder turns it into tree automata over the ranked pool "
-          "a,b,c,d:0 g,h:1 f,k:2 t:3 with chosen state numbers (identity/reversed/permuted/sparse/offset) and rule insertion order; ")
+          "a,b,c,d:0 g,h:1 f,k:2 t:3 (in a quarter of the alphabets one or two non-nullary symbols carry the NAME of the first leaf, e.g. a:0 a:2) "
+          "with chosen state numbers (identity/reversed/permuted/sparse/offset) and rule insertion order; ")
 
 COMMON_ASSUMPTIONS = [
     "library built from /repo's working tree with clang++ -O1 -DNDEBUG -DLIBVATA_VERIF, ASan+UBSan (asserts are not part of the oracle)",
     "each case runs in a forked child (pristine global alphabets / caches); verdict judged against reference models in engine/ref_*.hh",
+    "allocator: even workers keep ASan's quarantine (use-after-free visible), odd workers run with quarantine_size_mb=0 so that a freed address is handed out again at once, as with the production allocator (stale entries of address-keyed caches become visible); the mode is stored in the case file",
     "exploration only: small automata, bounded case counts; absence of violations beyond the explored cases is not established",
 ]
 
@@ -16,7 +18,7 @@ PROPS = {
         "thorough": {"workers": 16, "cases": 3000, "size": 40},
         "min_nontrivial_frac": 0.25,
         "min_tag_frac": {"verdict:included": 0.15, "verdict:not-included": 0.15},
-        "rule": GEN_TA + "pairs (A,B) built by strategies indep/superset/ablate/split/leafmiss/detB/degenerate; every case runs the 8 implemented "
+        "rule": GEN_TA + "pairs (A,B) built by strategies indep/superset/ablate/split/leafmiss/detB/degenerate, fanout (1/6: every state of A in 3 copies, every rule in 2-4 of its copies) and chain (1/96: unary chains of 30-1540 levels differing at the bottom); every case runs the 8 implemented "
                 "InclParam selections through the CLI protocol (+ the 4 NOSIM ones and the default on unprepared operands) and compares each verdict with "
                 "an exact reference (pair exploration (q,S), witness re-validated). Non-trivial: L(A) and L(B) non-empty and some accepting run of A uses "
                 "a non-nullary rule. Distinct: hash of the canonical case text.",
@@ -41,7 +43,7 @@ PROPS = {
         "min_nontrivial_frac": 0.3,
         "rule": GEN_TA + "single automata plus injected shapes (final state without rules + unreachable rule owner, no final state, rule over a never-productive child); "
                 "RemoveUnreachableStates / RemoveUselessStates (with and without translation map) compared by language with the input and checked for dead states/rules on the result; "
-                "IsLangEmpty against the productivity fixpoint, also along a 7-step history on one object (queries interleaved with copy-/move-assignment from an automaton of the opposite emptiness, SetStateFinal, EraseFinalStates, AddTransition). Non-trivial: the input has an unreachable rule owner or an unproductive state. Distinct: hash of the case text.",
+                "IsLangEmpty against the productivity fixpoint, also along a 7-step history on one object (queries interleaved with copy-/move-assignment from an automaton of the opposite emptiness, SetStateFinal, EraseFinalStates, AddTransition). One case in 24 is LARGE (20-150 states: backbone through all states + the generated rules stretched over them; in the dense half every state owns the same leaf, so states are nearly totally ordered by simulation). Non-trivial: the input has an unreachable rule owner or an unproductive state. Distinct: hash of the case text.",
         "assumptions": COMMON_ASSUMPTIONS,
     },
     "C04": {
@@ -50,7 +52,7 @@ PROPS = {
         "thorough": {"workers": 16, "cases": 8000, "size": 36},
         "min_nontrivial_frac": 0.2,
         "rule": GEN_TA + "downward simulation on arbitrary automata, upward simulation on reference-trimmed automata, states renumbered 0..n-1 through a generated permutation, "
-                "n passed as NumStates; every pair (q,r) compared with the naive greatest fixpoint of the definition; 1/24 of the cases are large (20-150 states, a backbone of unary/binary rules through all states plus the generated rules). Non-trivial: the reference relation is neither the identity "
+                "n passed as NumStates; every pair (q,r) compared with the naive greatest fixpoint of the definition; 1/24 of the cases are large (20-150 states, a backbone of unary/binary rules through all states plus the generated rules). One case in 24 is LARGE (20-150 states), half of those DENSE (relations with thousands of pairs). Non-trivial: the reference relation is neither the identity "
                 "nor total. Distinct: hash of the case text.",
         "assumptions": COMMON_ASSUMPTIONS + ["upward simulation is only requested for trimmed automata (stated precondition); the empty automaton is exercised with NumStates = 0 only"],
     },
@@ -61,7 +63,7 @@ PROPS = {
         "min_nontrivial_frac": 0.2,
         "rule": GEN_TA + "automata with sparse/dense numbers, useless states and (flavours 1,2) every state split in two copies to create simulation-equivalent states; "
                 "Reduce() / Reduce(TA_DOWNWARD): language equal to the input's, no more states, no more rules, and existence of a map from input states onto result states under which "
-                "every result rule/final is an image. Non-trivial: two useful states are downward-simulation equivalent. Distinct: hash of the case text.",
+                "every result rule/final is an image. One case in 24 is LARGE (20-150 states: backbone through all states + the generated rules stretched over them; in the dense half every state owns the same leaf, so states are nearly totally ordered by simulation). Non-trivial: two useful states are downward-simulation equivalent. Distinct: hash of the case text.",
         "assumptions": COMMON_ASSUMPTIONS,
     },
     "C06": {
@@ -81,7 +83,7 @@ PROPS = {
         "min_nontrivial_frac": 0.2,
         "rule": GEN_TA + "automaton + total state map (identity / injective / merging / into sparse numbers) through ReindexStates(functor), ReindexStates(dst, functor, addFinalStates) into empty and "
                 "non-empty destinations, ReindexStates(weak translator) empty and pre-filled, CollapseStates, and an arity-preserving symbol map through TranslateSymbols; the result must be "
-                "set-equal to the image. Non-trivial: the map merges two owners of rules for the same symbol, or is a non-identity injection on an automaton with a non-nullary accepting run.",
+                "set-equal to the image. One case in 24 is LARGE (20-150 states: backbone through all states + the generated rules stretched over them; in the dense half every state owns the same leaf, so states are nearly totally ordered by simulation). Half of the inputs live over their own alphabet (symbol numbers differ from the default alphabet); results of the value-returning entry points are read through their own alphabet. Non-trivial: the map merges two owners of rules for the same symbol, or is a non-identity injection on an automaton with a non-nullary accepting run.",
         "assumptions": COMMON_ASSUMPTIONS + ["state maps are total on the used states (CollapseStates/ReindexStates use at())"],
     },
     "C15": {
@@ -90,7 +92,7 @@ PROPS = {
         "thorough": {"workers": 16, "cases": 6000, "size": 36},
         "min_nontrivial_frac": 0.2,
         "rule": GEN_TA + "automata extended by chains of unary/binary rules (deep shortest trees), unproductive final states, leaf-only languages, empty languages; GetCandidateTree's result must be "
-                "language-included in the input (exact reference) and non-empty whenever the input is - also along a 6-step history on one object (queries interleaved with copy-/move-assignment from another automaton and the mutators). Non-trivial: non-empty language and (shallowest found witness of depth >= 3 or an unproductive final state).",
+                "language-included in the input (exact reference) and non-empty whenever the input is - also along a 6-step history on one object (queries interleaved with copy-/move-assignment from another automaton and the mutators). One case in 24 is LARGE (20-150 states: backbone through all states + the generated rules stretched over them; in the dense half every state owns the same leaf, so states are nearly totally ordered by simulation). Non-trivial: non-empty language and (shallowest found witness of depth >= 3 or an unproductive final state).",
         "assumptions": COMMON_ASSUMPTIONS,
     },
     "C09": {
@@ -104,7 +106,7 @@ PROPS = {
                 "(SanitizeAutsForInclusion, then CheckInclusion), the antichain selection and the default overload also on unprepared operands; every verdict is compared with an exact reference "
                 "(pair exploration (q,S) over the subset construction of B, witness word re-validated). A watchdog turns a call that does not return on these tiny inputs into a no-verdict violation (10 s + 2 x 45 s). "
                 "1/16 of the cases are LARGE: both operands get an extra non-final start state heading a chain of 10-270 states that ends in a final state (hash containers are rehashed, several start states of which only some are final), and A accepts the empty word in half of them. 1/64 of the cases take two of the word automata shipped in tests/fa_timbuk_armc (files < 60 kB) instead: the three selections must agree with each other and with the reference whenever it terminates within its cap. "
-                "Non-trivial: both languages contain a word of length >= 2 and some reached macro-state of B has >= 2 states. Distinct: hash of the case text.",
+                "Selections driven: antichains, congr-depth, congr-breadth and the two congruence selections with SetEquivalence(true). Non-trivial: both languages contain a word of length >= 2 and some reached macro-state of B has >= 2 states. Distinct: hash of the case text.",
         "assumptions": COMMON_ASSUMPTIONS + ["congruence selections are only called on operands prepared by SanitizeAutsForInclusion (the dispatcher forms a disjoint union of its operands)",
                                               "SIM / EQUIV selections are not claimed by the property (FA ComputeSimulation is unusable) and are not exercised"],
     },
@@ -190,7 +192,7 @@ PROPS = {
                 "GetMtbddForPrefix (concrete prefix), copy, assignment, destruction, VoidApply1/2 (visited leaves / leaf pairs = co-occurring values). After EVERY step GetValue on all 64 total assignments of every live handle "
                 "is compared with a truth-table model, operator==/!= between every pair of live handles must coincide with equality of the tables, and GetPaths of one handle must be a partition of the assignment space with the "
                 "right values; results of node-constructing operations (constructor, Project, Rename, ExtendWith, GetMtbddForPrefix, and a quarter of the others) must be EQUAL to the MTBDD rebuilt for the same truth table from constants "
-                "and if-then-else applies; functor objects are re-used across calls. Non-trivial: the history contains an apply whose operands share sub-graphs and produces a function with >= 3 distinct leaves. Distinct: hash of the history.",
+                "and if-then-else applies; functor objects are re-used across calls. A sixteenth of the histories use crowds of 40-70 000 references as in C18. Non-trivial: the history contains an apply whose operands share sub-graphs and produces a function with >= 3 distinct leaves. Distinct: hash of the history.",
         "assumptions": COMMON_ASSUMPTIONS + ["Project only with idempotent commutative associative combiners; Rename only with strictly increasing maps; ExtendWith only above all variables of the operand (the documented/observed domains)"],
     },
     "C18": {
@@ -201,7 +203,7 @@ PROPS = {
         "rule": "histories over a pool of heap-allocated MTBDD handles: construct, constant, copy, assignment (incl. self-assignment and between handles sharing a root), "
                 "Apply1/2/3 and Project through functor OBJECTS that are re-used across calls (as library code does), destruction in generated order (also implicit destruction by overwriting a pool slot), read-only visitors; after every step all live handles must still equal their truth tables (ASan: no "
                 "use-after-free / double free); at the end every handle is destroyed and the sizes of the leaf and internal unique tables (hook LIBVATA_VERIF) must equal their values before the history. "
-                "Non-trivial: a handle sharing nodes with a live one is destroyed and the survivor is read afterwards. Distinct: hash of the history.",
+                "A sixth of the histories turn copy steps into CROWDS: 40-70 000 extra references to one node (copies of one handle, or one-cube diagrams sharing the default leaf), of which a generated part is released while the pool stays alive. Non-trivial: a handle sharing nodes with a live one is destroyed and the survivor is read afterwards. Distinct: hash of the history.",
         "assumptions": COMMON_ASSUMPTIONS + ["the size law is asserted for the two thirds of the histories that use only construction, copy, assignment, apply and destruction; the others also use Project / Rename / ExtendWith / GetMtbddForPrefix (which may leave unreferenced nodes by design) and are checked for values and by ASan only"],
     },
     "C13": {
